@@ -77,6 +77,7 @@ impl T {
 fn count(p: &PayloadOut) -> usize { p.origins.len() + p.router_keys.len() + p.aspas.len() }
 
 fn main() {
+    act_as_rsync_if_child();
     let verbose = std::env::args().any(|a| a == "-v");
     let started = std::time::Instant::now();
     let mut t = T { verbose, checks: 0, failures: 0, runs: 0, build_ms: 0, run_ms: 0, sigs: 0 };
@@ -85,7 +86,7 @@ fn main() {
     //--- 1. the fault-free world
     let s = base();
     let (out0, exp0) = t.fresh("base", &s.spec, &cfg);
-    t.check("base: payload is what was described", exp0.origins.len() == 10 && exp0.router_keys.len() == 3 && exp0.aspas.len() == 3,
+    t.check("base: payload is what was described", exp0.origins.len() == 9 && exp0.router_keys.len() == 3 && exp0.aspas.len() == 3,
             || format!("{:?}", exp0));
     t.check("base: 6 valid points", out0.metrics.publication.valid_points == 6 && out0.metrics.publication.rejected_points == 0,
             || format!("{:?}", out0.metrics.publication));
@@ -121,8 +122,9 @@ fn main() {
             let whole_point = matches!(f, Fault::HashMismatch | Fault::Missing);
             if whole_point {
                 // the whole publication point (and everything below) is dropped, siblings elsewhere stay
-                t.check(&format!("{}: point A1 dropped", label),
-                        !o.payload.origins.iter().any(|r| r.prefix.starts_with("10.1.")) && o.payload.origins.iter().any(|r| r.prefix == "10.0.0.0/16"),
+                let gone = if *ca == "A1" { "10.1." } else { "10.1.2." };
+                t.check(&format!("{}: point {} dropped", label, ca),
+                        !o.payload.origins.iter().any(|r| r.prefix.starts_with(gone)) && o.payload.origins.iter().any(|r| r.prefix == "10.0.0.0/16"),
                         || format!("{:?}", o.payload));
             } else if neutral || *f == Fault::Unlisted && *name == "notes.txt" {
                 t.check(&format!("{}: payload unchanged", label), o.payload == exp0, || format!("{:?}", o.payload));
@@ -155,7 +157,7 @@ fn main() {
         let label = format!("fault {:?} on CRL of B1", f);
         let (o, _) = t.fresh(&label, &s.spec, &cfg);
         t.check(&format!("{}: B1 gone, rest stays", label),
-                !o.payload.origins.iter().any(|r| r.prefix == "172.16.5.0/24") && o.payload.origins.len() == 9,
+                !o.payload.origins.iter().any(|r| r.prefix == "172.16.5.0/24") && o.payload.origins.len() == 8,
                 || format!("{:?}", o.payload));
     }
     for f in Fault::FOR_TA.iter() {
@@ -164,7 +166,7 @@ fn main() {
         let label = format!("fault {:?} on TA certificate of beta", f);
         let (o, _) = t.fresh(&label, &s.spec, &cfg);
         t.check(&format!("{}: beta gone, alpha stays", label),
-                !o.payload.origins.iter().any(|r| r.prefix.starts_with("172.")) && o.payload.origins.len() == 8,
+                !o.payload.origins.iter().any(|r| r.prefix.starts_with("172.")) && o.payload.origins.len() == 7,
                 || format!("{:?}", o.payload));
     }
     {
@@ -219,7 +221,7 @@ fn main() {
         w.serve_step(1).unwrap();
         let r2 = t.run(&w, &cfg);
         t.check("history: run 2 sees the new ROA", r2.payload.origins.iter().any(|r| r.prefix == "10.1.64.0/18")
-                && r2.payload.origins.len() == 11, || format!("{:?}", r2.payload));
+                && r2.payload.origins.len() == 10, || format!("{:?}", r2.payload));
         let a1 = |o: &RunOutcome| o.store.iter().find(|p| p.manifest_uri.ends_with("/A1/A1.mft")).cloned();
         t.check("history: stored manifest number 2", a1(&r2).and_then(|p| p.manifest_number) == Some(2), || format!("{:?}", a1(&r2)));
         // regression: serve version 0 again -> the stored version 1 stays in use
